@@ -181,11 +181,12 @@ def main():
                      "properties, 2D and 3D); every RNG path of _generateInner enumerated exactly.  A case is non-trivial when "
                      "the scene depends on >= 2 random draws and has > 1 RNG path; distinct by hash of (source, maxIterations)")
     common.ensure_parser()
-    if not c.proofs():
+    if not os.environ.get("VERIF_DEV_NOPROOFS") and not c.proofs():
         c.finish()
     exe = common.build_ocaml(PID)
     quick = c.tier == "quick"
-    nprog = 90 if quick else 2500
+    nprog = int(os.environ.get("VERIF_C01_N", 90 if quick else 2500))
+    shrunk_kinds = set()
     rng = c.rng
     jobs = []
     corpus_dir = os.path.join(common.VERIF, "corpus", PID)
@@ -235,7 +236,9 @@ def main():
             seen.add(kind)
             c.cov["disagreements_checked"] += 1
             small = job
-            if kind in ("distribution", "correspondence") and not c.replay:
+            if kind in ("distribution", "correspondence") and not c.replay and kind not in shrunk_kinds \
+                    and not os.environ.get("VERIF_NOSHRINK"):
+                shrunk_kinds.add(kind)
                 def fails(cand, kind=kind):
                     j2 = make_job(cand, job["name"], job["mode2D"], [detail.get("n", job["maxits"][0])], job["max_paths"])
                     r2 = run_jobs([j2])[job["name"]]
